@@ -161,7 +161,7 @@ class ProgProp(Prop):
         progs = X.build_programs(cases, irs)
         failures, disagreements, shapes, known_hits = [], [], [], []
         known_by_id = {k['id']: k for k in ctx.get('known', [])}
-        nscripts = nops = nomodel = 0
+        nscripts = nops = nomodel = nreact = 0
         build_failed = 0
         for c, p, ir in zip(cases, progs, irs):
             try:
@@ -192,13 +192,11 @@ class ProgProp(Prop):
                         failed = failed + ['program-crashed rc=%s %s' % (rc, err[-300:])]
                     rec = {'case': dict(X.strip(c), script=s), 'impl': {'trace': tr}, 'model': {'trace': mts[k] if mts else None},
                            'failed': failed, 'noshrink': True}
+                    nomodel += 0
+                    if any(l.startswith('react ') for l in s):
+                        nreact += 1
                     if failed:
                         failures.append(rec)
-                    elif any(l.startswith('react ') for l in s):
-                        # the mock component reacts to an in-event by raising an out-event before it returns: the
-                        # wiring semantics (Sem) has no such re-entrant component, so these scripts are judged by the
-                        # property monitor alone
-                        nomodel += 1
                     elif mts is None or mts[k] != tr:
                         disagreements.append(rec)
                     shapes.append(case_hash([c['src'], c['cfg'], s]))
@@ -213,7 +211,7 @@ class ProgProp(Prop):
                 'failures': failures, 'disagreements': disagreements, 'evaluations': nscripts, 'shapes': shapes,
                 'known_hits': known_hits,
                 'coverage': {'programs': len(cases), 'programs_failed_to_build': build_failed, 'scripts': nscripts,
-                             'script_ops': nops, 'traces_validated_against_impl': nscripts - nomodel, 'monitor_only_scripts_with_reactions': nomodel,
+                             'script_ops': nops, 'traces_validated_against_impl': nscripts - nomodel, 'scripts_with_component_reactions': nreact,
                              'compile_wall_s': round(time.time() - t0, 1),
                              **(route['coverage'] if route else {})}})
 
